@@ -110,6 +110,7 @@ impl Adapter for CbAd {
             "slowOn": rng.below(2), "slowThr": 2 + rng.below(2), "slowRate": *rng.pick(&[1u64, 2, 4]),
             "D": *rng.pick(&[2u64, 4, 7]), "wait": if storm { 1 + rng.below(2) as u64 } else { *rng.pick(&[1u64, 2, 3, 5]) }, "cls": *rng.pick(&["default", "e2ok"]),
             "fb": if seq { 0 } else { rng.below(2) },
+            "lazy": if seq && rng.pct(40) { 1 } else { 0 },
         })
     }
     fn build(&mut self, cfg: &Value, sim: &mut Sim) {
@@ -240,6 +241,10 @@ impl Adapter for CbAd {
                 0 => {
                     let out = if rng.pct(pfail) { if rng.pct(25) { "e2" } else { "e1" } } else { "ok" };
                     v.push(json!({"e":"create","c":1}));
+                    if cfg["lazy"].as_u64().unwrap_or(0) == 1 && rng.pct(30) {
+                        // the response future is polled late: this time is not part of the call's duration
+                        v.push(json!({"e":"advance","d": slow,"lazy":true}));
+                    }
                     v.push(json!({"e":"poll","c":1}));
                     if rng.pct(25) {
                         v.push(json!({"e":"advance","d": if rng.pct(70) { slow } else { slow - 1 }}));
